@@ -11,7 +11,9 @@ Inductive rz :=
 | ZAdjust                   (* _adjust_process_count() *)
 | ZAdjustIfLive             (* if self._flags.broken is None and not self._flags.shutdown: _adjust_process_count() *)
 | ZWaitAllAlive             (* while not broken and not all(p.is_alive() ...): sleep *)
+| ZWakeManager              (* with self._shutdown_lock: self._executor_manager_thread_wakeup.wakeup() *)
 | ZAcquire | ZRelease.      (* produced by flattening ZLocked *)
 
-Definition flat1 (i : rz) : list rz := match i with ZLocked l => ZAcquire :: l ++ [ZRelease] | i => [i] end.
+(* the wake-up of the manager thread changes none of the counters of Model/Resize.v: dropped here, used by Model/Watch.v *)
+Definition flat1 (i : rz) : list rz := match i with ZLocked l => ZAcquire :: l ++ [ZRelease] | ZWakeManager => [] | i => [i] end.
 Definition flatten (p : list rz) : list rz := flat_map flat1 p.
